@@ -51,6 +51,20 @@ def _has_id_intersection(parent: 'Task', children: Iterable['Task']):
     return len(parent_tree_ids.intersection(new_task_ids)) > 0
 
 
+def _check_can_adopt(parent: 'Task', child: 'Task'):
+    """Checks that child (with its subtree) can be placed under parent"""
+    if parent is child or parent in child.all_children:
+        raise RuntimeError(f"Task {parent.id} is a child of task {child.id} or the task itself. Can't make child "
+                           f"a parent of its parent")
+
+    new_parents = [parent] + [t for t in parent.all_parents]
+    for t in [child] + [t for t in child.all_children]:
+        for linked in [v for v in t.predecessors] + [v for v in t.successors]:
+            if linked in new_parents:
+                raise RuntimeError(f"Task {t.id} is linked with task {linked.id}. Can't make predecessor or "
+                                   f"successor a parent")
+
+
 def _check_not_none(obj: Any, name: str):
     if obj is None:
         raise RuntimeError(f"{name} is None")
@@ -727,9 +741,7 @@ class Task:
                 raise RuntimeError("Parent must be from same WBS")
 
         if parent is not None:
-            if parent in self.all_children:
-                raise RuntimeError(f"Task {parent.id} is a child of task {self.id}. Can't make child "
-                                   f"a parent of its parent")
+            _check_can_adopt(parent, self)
 
         if self.__parent is not None and self in self.__parent.__children:
             self.__parent.__children.remove(self)
@@ -791,8 +803,7 @@ class Task:
                 raise RuntimeError(f"Id intersection detected")
 
         for ch in value:
-            if self in ch.all_children:
-                raise RuntimeError(f"Task {self.id} is a child of {ch.id}. Can't make child a parent of its parent")
+            _check_can_adopt(self, ch)
 
         for v in self.__children:
             v.__parent = None
@@ -831,10 +842,10 @@ class Task:
         value = _to_list(value)
         _check_no_nones_in_list(value, 'predecessors')
 
-        parents = self.all_parents
+        relatives = [self] + [t for t in self.all_parents] + [t for t in self.all_children]
         for v in value:
-            if v in parents:
-                raise RuntimeError("Can't set parent as predecessor")
+            if v in relatives:
+                raise RuntimeError("Can't set task itself, its parent or its child as predecessor")
 
         for v in value:
             if self in v.all_predecessors:
@@ -877,10 +888,10 @@ class Task:
         value = _to_list(value)
         _check_no_nones_in_list(value, 'successors')
 
-        parents = self.all_parents
+        relatives = [self] + [t for t in self.all_parents] + [t for t in self.all_children]
         for v in value:
-            if v in parents:
-                raise RuntimeError("Can't set parent as successor")
+            if v in relatives:
+                raise RuntimeError("Can't set task itself, its parent or its child as successor")
 
         for v in value:
             if self in v.all_successors:
